@@ -9,7 +9,7 @@ META = {
             'keyword, imported name, class-level binding, dunder, keyword-passable parameter, never-bound name) and an unchanged / '
             'underscore-prefixed module namespace when rename_globals is off. non-trivial = some identifier was renamed; distinct by (program, options)',
     'assumptions': ['"documented reflective views": first parameter of undecorated/@classmethod methods, *args/**kwargs and positional-only parameters may be renamed in the signature'],
-    'modelled_not_verified': ['Binding.rename (which AST fields are written) is not modelled in Lean; decided by the oracle'],
+    'modelled_not_verified': ['Binding.rename (which AST fields are written) is not modelled in Lean; decided by the oracle', 'arg_rename_in_place is modelled (PMV.InPlace) on the facts it reads; which namespace a function belongs to comes from the real add_namespace'],
 }
 
 
@@ -32,6 +32,121 @@ def run_programs(ctx, progs, osets, found_by):
         ctx.sample({'stage': found_by, 'id': progs[-1][0], 'source': progs[-1][1][:300]})
 
 
+# ---- arg_rename_in_place against its Lean model (PMV.InPlace.argRenameInPlace, theorems T04.5-T04.7) ----
+
+DECORATORS = [[], [], [], ['classmethod'], ['classmethod'], ['staticmethod'], ['property'], ['classmethod', 'some_decorator'], ['some_decorator', 'classmethod'],
+              ['some_module.classmethod'], ['classmethod()'], ['some_decorator(1)']]
+
+
+def _signature(rng, names):
+    it = iter(names)
+    po = [next(it) for _ in range(rng.choice([0, 0, 0, 1, 2]))]
+    ar = [next(it) for _ in range(rng.choice([0, 1, 1, 2, 3]))]
+    va = next(it) if rng.random() < 0.35 else None
+    ko = [next(it) for _ in range(rng.choice([0, 0, 1, 2]))]
+    kw = next(it) if rng.random() < 0.35 else None
+    parts = []
+    if po:
+        parts += po + ['/']
+    dflt = rng.random() < 0.4
+    parts += [(a + '=1' if dflt else a) for a in ar]
+    if va:
+        parts.append('*' + va)
+    elif ko:
+        parts.append('*')
+    parts += [(a + '=2' if rng.random() < 0.5 else a) for a in ko]
+    if kw:
+        parts.append('**' + kw)
+    return ', '.join(parts), po + ar + ([va] if va else []) + ko + ([kw] if kw else [])
+
+
+def signature_program(rng):
+    """functions, methods and lambdas in every kind of enclosing scope, with every kind of parameter and decorator list"""
+    counter = [0]
+
+    def fresh(k):
+        counter[0] += 1
+        return ['param_%d_%d' % (counter[0], i) for i in range(k)]
+
+    def block(depth, indent):
+        pad = '    ' * indent
+        out = []
+        for _ in range(rng.randint(1, 3)):
+            kind = rng.choice(['def', 'def', 'class', 'lambda', 'asyncdef', 'if'] if depth > 0 else ['def', 'lambda'])
+            if kind in ('def', 'asyncdef'):
+                sig, ps = _signature(rng, fresh(9))
+                for d in rng.choice(DECORATORS):
+                    out.append(pad + '@' + d)
+                out.append(pad + ('async ' if kind == 'asyncdef' else '') + 'def function_%d(%s):' % (counter[0], sig))
+                use = ' + '.join(ps[:3]) or '0'
+                out.append(pad + '    result_value = ' + ('1' if any(p for p in ps[:3] if False) else '[%s]' % ', '.join(ps)))
+                if depth > 0 and rng.random() < 0.5:
+                    out.append(block(depth - 1, indent + 1))
+                out.append(pad + '    return result_value, ' + ('[%s]' % ', '.join(ps)))
+            elif kind == 'class':
+                out.append(pad + 'class Class_%d:' % counter[0])
+                counter[0] += 1
+                out.append(block(depth - 1, indent + 1))
+            elif kind == 'lambda':
+                sig, ps = _signature(rng, fresh(9))
+                out.append(pad + 'lambda_value_%d = lambda %s: [%s]' % (counter[0], sig, ', '.join(ps + ps)))
+            else:
+                out.append(pad + 'if some_condition:')
+                out.append(block(depth - 1, indent + 1))
+        return '\n'.join(out)
+    return block(rng.randint(1, 3), 0) + '\n'
+
+
+def inplace_correspondence(ctx, progs, found_by):
+    """the real arg_rename_in_place and the model's argRenameInPlace on every parameter of every function of the same modules"""
+    import ast
+    import pyast
+    from python_minifier.ast_annotation import add_parent
+    from python_minifier.rename import add_namespace
+    from python_minifier.rename.util import arg_rename_in_place
+    reqs, meta = [], []
+    for ident, src in progs:
+        try:
+            tree = ast.parse(src)
+        except SyntaxError:
+            continue
+        add_parent(tree)
+        add_namespace(tree)
+        for fn in ast.walk(tree):
+            if not isinstance(fn, (ast.FunctionDef, ast.AsyncFunctionDef, ast.Lambda)):
+                continue
+            a = fn.args
+            params = list(getattr(a, 'posonlyargs', [])) + a.args + ([a.vararg] if a.vararg else []) + a.kwonlyargs + ([a.kwarg] if a.kwarg else [])
+            if not params:
+                continue
+            is_lambda = isinstance(fn, ast.Lambda)
+            try:
+                with pyast.unlimited():
+                    decs = '(' + ' '.join(pyast.enc_expr(d) for d in ([] if is_lambda else fn.decorator_list)) + ')'
+                    reqs.append('inplace.fn %d %d %s %s' % (is_lambda, isinstance(fn.namespace, ast.ClassDef), decs, pyast.enc_arguments(a)))
+            except pyast.OutOfModel:
+                ctx.bump('inplace', 'outside')
+                continue
+            meta.append((ident, src, fn, params))
+    answers = ctx.driver.ask(reqs) if reqs else []
+    agree = inplace = passable_inplace = 0
+    for (ident, src, fn, params), ans in zip(meta, answers):
+        model = ans[3:].strip() if ans.startswith('ok') else None
+        if model is None or len(model) != len(params):
+            ctx.add_broken('correspondence', 'inplace.fn:' + ident, 'driver answered %r for %d parameters' % (ans[:100], len(params)))
+            continue
+        real = ''.join('1' if arg_rename_in_place(p) else '0' for p in params)
+        inplace += real.count('1')
+        ctx.bump('inplace_kind', ('lambda' if isinstance(fn, ast.Lambda) else 'method' if isinstance(fn.namespace, ast.ClassDef) else 'function'))
+        if real == model:
+            agree += 1
+            continue
+        where = [p.arg for p, r, m in zip(params, real, model) if r != m]
+        ctx.add_broken('correspondence', 'inplace.fn:' + ident, 'arg_rename_in_place and the model (C04.keyword_passable_in_place) differ on parameter(s) %s of line %d of %r'
+                       % (where, getattr(fn, 'lineno', 0), src[:600]))
+    ctx.stage('inplace-correspondence:' + found_by, functions=len(meta), agree=agree, in_place_parameters=inplace)
+
+
 def run(ctx):
     progs = rc.programs(ctx, ctx.scale(900, None), ctx.scale(200, 3000))
     osets = rc.RENAME_OPTION_SETS if ctx.tier == 'thorough' else [rc.RENAME_OPTION_SETS[i] for i in (0, 2, 4)]
@@ -42,6 +157,10 @@ def run(ctx):
     for k in ctx.known:
         if k.get('replay_source'):
             run_programs(ctx, [(k['id'], k['replay_source'])], rc.RENAME_OPTION_SETS, 'known')
+    sigs = [('sig%d' % i, signature_program(ctx.rng)) for i in range(ctx.scale(150, 2500))]
+    inplace_correspondence(ctx, sigs, 'signatures')
+    inplace_correspondence(ctx, progs[:ctx.scale(400, 4000)], 'scope-programs')
+    run_programs(ctx, sigs[:ctx.scale(60, 1000)], osets, 'signatures')
 
 
 def search(ctx):
